@@ -99,7 +99,15 @@ def gen(rng, tier):
             steps.append({"op": "merge_all", "exclude": rng.random() < 0.4})
         else:
             steps.append({"op": k})
-    return {"steps": steps, "queries": [gen_query(rng, p) for _ in range(rng.randint(12, 20))], "qseed": rng.getrandbits(32)}
+    memory = rng.random() < 0.15
+    if memory:
+        steps = [st for st in steps if st["op"] not in ("reopen", "restart")]
+    else:
+        for st in steps:
+            if st["op"] == "update" and rng.random() < 0.25:
+                st["via"] = "other_process"
+    return {"steps": steps, "queries": [gen_query(rng, p) for _ in range(rng.randint(12, 20))], "qseed": rng.getrandbits(32),
+            "memory": memory}
 
 
 def near_edge(x):
@@ -197,7 +205,7 @@ def run(case):
         def after_write(where):
             """index invariant + queries"""
             nonlocal nontrivial
-            raw = raw_dump(w.p("a.db"), tables=("features",))["features"]
+            raw = raw_dump(w.p("a.db"), tables=("features",))["features"] if not case.get("memory") else []
             for row in raw:
                 rid, fid, start, end, b = row[1], row[1], row[5], row[6], row[12]
                 if isinstance(start, int) and isinstance(end, int) and b != ucsc_bin(start, end):
@@ -210,6 +218,11 @@ def run(case):
                 return False
             feats = d["dump"]["features"]
             rel = d["dump"]["rel"]
+            for f in feats:
+                if isinstance(f["cols"][3], int) and isinstance(f["cols"][4], int) and f["bin"] != ucsc_bin(f["cols"][3], f["cols"][4]):
+                    V.append(viol("C06.index", "%s: feature %r (%s-%s) comes back with bin %r, the scheme says %r" % (
+                        where, f["id"], f["cols"][3], f["cols"][4], f["bin"], ucsc_bin(f["cols"][3], f["cols"][4])), kind="bin_mismatch_api"))
+                    return False
             out["digests"].add(core.digest([(f["id"], f["cols"][3], f["cols"][4]) for f in feats]))
             qs = case["queries"]
             for q in qrng.sample(qs, min(len(qs), 8)):
@@ -252,6 +265,16 @@ def run(case):
 
         node = w.node()
         alive = False
+        DBN = ":memory:" if case.get("memory") else "a.db"
+        stale = [False]
+
+        def reopen_if_stale():
+            if stale[0]:
+                call(node, {"op": "drop", "h": "h"})
+                call(node, {"op": "gc"})
+                call(node, {"op": "open", "h": "h", "db": "a.db"})
+                stale[0] = False
+
         for si, st in enumerate(case["steps"]):
             k = st["op"]
             if k == "reopen" and alive:
@@ -267,19 +290,34 @@ def run(case):
                     break
                 continue
             if k == "create":
-                r = call(node, {"op": "create", "h": "h", "db": "a.db", "data": G.source_spec(None, st["feats"], form=st["form"]),
+                r = call(node, {"op": "create", "h": "h", "db": DBN, "data": G.source_spec(None, st["feats"], form=st["form"]),
                                 "transform": st.get("transform"), "kw": {"merge_strategy": "create_unique"}})
+                if case.get("memory"):
+                    probes["memory_database"] = 1
             elif k == "update" and alive:
                 kw = {"merge_strategy": st["strategy"], "make_backup": False}
                 if st.get("fmf"):
                     kw["force_merge_fields"] = st["fmf"]
-                r = call(node, {"op": "update", "h": "h", "data": G.source_spec(None, st["feats"], form=st["form"]), "kw": kw})
+                ureq = {"op": "update", "h": "h", "data": G.source_spec(None, st["feats"], form=st["form"]), "kw": kw}
+                if st.get("via") == "other_process":
+                    # the write is made by another process; this handle stays open and answers the queries below
+                    other = w.node()
+                    call(other, {"op": "open", "h": "h", "db": "a.db"})
+                    r = call(other, ureq)
+                    other.close()
+                    stale[0] = True
+                    probes["write_by_other_process"] = 1
+                else:
+                    reopen_if_stale()
+                    r = call(node, ureq)
             elif k == "move" and alive:
+                reopen_if_stale()
                 r = call(node, {"op": "add_relation", "h": "h", "parent": st["parent"], "child": st["child"], "level": 1,
                                 "child_func": "move", "by": st["by"]})
                 if r["ok"]:
                     probes["feature_moved_by_child_func"] = 1
             elif k == "merge_all" and alive:
+                reopen_if_stale()
                 r = call(node, {"op": "merge_all", "h": "h", "kw": {"exclude_components": st["exclude"]}})
                 if r["ok"] and r["out"]:
                     probes["merge_all_stored_features"] = 1
